@@ -3573,3 +3573,177 @@ def translate_strictify(repo):
         if g_ != w_: _fail(f, "profile_with_ties_to_strict_profile, statement %d: %r expected, got %r" % (k + 1, w_.strip(), g_.strip()))
     return "\n".join(["(* GENERATED by harness/translate.py from profile_with_ties_to_strict_profile (profile_utils.py:%d), whose statements were matched one by one. Do not edit. *)" % f.lineno,
                       "From Coq Require Import Arith ZArith QArith List Bool.", "Import ListNotations.", "From SCK Require Import Eat3.", "", STRICT_GALLINA])
+
+# ---------------------------------------------------------------------------------------------------------------
+# the rest of elicitation_utils.py: elicit_multiple, IntegerElicitor, the answering subclasses (statements matched one by one)
+MULTI = """if agents.shape != alternatives.shape:
+  raise ValueError('The two input arrays must have the same shape.')
+if not (np.issubdtype(agents.dtype, np.integer) and np.issubdtype(alternatives.dtype, np.integer)):
+  raise ValueError('The input arrays must contain only integers.')
+ans = []
+for agent, alternative in zip(agents, alternatives):
+  ans.append(self.elicit(agent, alternative))
+return np.array(ans%s)"""
+INT_ELICIT = """elicited_value: Union[int, float] = super().elicit(agent, alternative)
+if isinstance(elicited_value, float) and (not elicited_value.is_integer()):
+  raise ValueError('The elicited value must be an integer.')
+return int(elicited_value)"""
+STDIN_IMPL = """agent_name = agent
+alternative_name = alternative
+if self.preflib_instance is not None:
+  alternative_name = self.preflib_instance.alternatives_name[alternative]
+print(f'Agent {agent_name}, what is your preference for alternative {alternative_name}?')
+return float(input())"""
+
+def _shape(fn, want, what):
+    got = [re.sub(r"for \((\w+), (\w+)\) in", r"for \1, \2 in", x) for x in _structure(_body(fn))]; want = want.split("\n")
+    for k in range(max(len(got), len(want))):
+        g_ = got[k] if k < len(got) else "<end>"; w_ = want[k] if k < len(want) else "<end>"
+        if g_ != w_: _fail(fn, "%s, statement %d: %r expected, got %r" % (what, k + 1, w_.strip(), g_.strip()))
+
+def _sig(fn, args, defaults, what):
+    if [a.arg for a in fn.args.args] != args or [U(d) for d in fn.args.defaults] != defaults or fn.args.vararg or fn.args.kwarg or fn.args.kwonlyargs:
+        _fail(fn, "%s: signature %r with defaults %r expected" % (what, args, defaults))
+
+def translate_elicitclasses(repo):
+    src = open(os.path.join(repo, "socialchoicekit", "elicitation_utils.py")).read()
+    mod = ast.parse(src)
+    classes = [c.name for c in mod.body if isinstance(c, ast.ClassDef)]
+    want_classes = ["Elicitor", "IntegerElicitor", "ValuationProfileElicitor", "IntegerValuationProfileElicitor", "SynchronousStdInElicitor", "IntegerSynchronousStdInElicitor", "LambdaElicitor", "IntegerLambdaElicitor"]
+    if classes != want_classes: _fail(mod, "classes of elicitation_utils.py: %r expected, got %r" % (want_classes, classes))
+    C = {c.name: c for c in mod.body if isinstance(c, ast.ClassDef)}
+    bases = {"Elicitor": [], "IntegerElicitor": ["Elicitor"], "ValuationProfileElicitor": ["Elicitor"], "IntegerValuationProfileElicitor": ["IntegerElicitor"],
+             "SynchronousStdInElicitor": ["Elicitor"], "IntegerSynchronousStdInElicitor": ["IntegerElicitor"], "LambdaElicitor": ["Elicitor"], "IntegerLambdaElicitor": ["IntegerElicitor"]}
+    meths = {"Elicitor": ["__init__", "elicit", "elicit_multiple", "_elicit_impl"], "IntegerElicitor": ["__init__", "elicit", "elicit_multiple", "_elicit_impl"]}
+    for n, c in C.items():
+        if [U(b) for b in c.bases] != bases[n]: _fail(c, "bases of %s" % n)
+        got = [f.name for f in c.body if isinstance(f, ast.FunctionDef)]
+        if got != meths.get(n, ["__init__", "_elicit_impl"]): _fail(c, "methods of %s: %r" % (n, got))
+        if any(isinstance(x, (ast.Assign, ast.AnnAssign)) for x in c.body): _fail(c, "class attributes in %s" % n)
+    m = lambda cn, fn: _find(C[cn].body, ast.FunctionDef, fn)
+    f = m("Elicitor", "elicit_multiple"); _sig(f, ["self", "agents", "alternatives"], [], "Elicitor.elicit_multiple"); _shape(f, MULTI % "", "Elicitor.elicit_multiple")
+    _shape(m("Elicitor", "_elicit_impl"), "raise NotImplementedError", "Elicitor._elicit_impl")
+    f = m("IntegerElicitor", "__init__"); _sig(f, ["self", "memoize", "zero_indexed"], ["True", "False"], "IntegerElicitor.__init__"); _shape(f, "super().__init__(memoize=memoize, zero_indexed=zero_indexed)", "IntegerElicitor.__init__")
+    f = m("IntegerElicitor", "elicit"); _sig(f, ["self", "agent", "alternative"], [], "IntegerElicitor.elicit"); _shape(f, INT_ELICIT, "IntegerElicitor.elicit")
+    f = m("IntegerElicitor", "elicit_multiple"); _sig(f, ["self", "agents", "alternatives"], [], "IntegerElicitor.elicit_multiple"); _shape(f, MULTI % ", dtype=int", "IntegerElicitor.elicit_multiple")
+    _shape(m("IntegerElicitor", "_elicit_impl"), "raise NotImplementedError", "IntegerElicitor._elicit_impl")
+    defaults = {}
+    for cn, arg, zi, impl in [("ValuationProfileElicitor", "valuation_profile", "True", "return self.valuation_profile[agent, alternative]"),
+                              ("IntegerValuationProfileElicitor", "valuation_profile", "True", "return float(self.valuation_profile[agent, alternative])"),
+                              ("LambdaElicitor", "elicitation_function", None, "return self.elicitation_function(agent, alternative)"),
+                              ("IntegerLambdaElicitor", "elicitation_function", None, "return self.elicitation_function(agent, alternative)"),
+                              ("SynchronousStdInElicitor", "preflib_instance", None, STDIN_IMPL), ("IntegerSynchronousStdInElicitor", "preflib_instance", None, STDIN_IMPL)]:
+        f = m(cn, "__init__")
+        if zi is not None:
+            _sig(f, ["self", arg, "memoize"], ["True"], cn + ".__init__"); _shape(f, "self.%s = %s\nsuper().__init__(memoize=memoize, zero_indexed=%s)" % (arg, arg, zi), cn + ".__init__"); defaults[cn] = "true"
+        else:
+            d = [U(x) for x in f.args.defaults]
+            want_d = ["None", "True", "False"] if "StdIn" in cn else ["True", "True"]
+            _sig(f, ["self", arg, "memoize", "zero_indexed"], want_d, cn + ".__init__"); _shape(f, "self.%s = %s\nsuper().__init__(memoize=memoize, zero_indexed=zero_indexed)" % (arg, arg), cn + ".__init__")
+            defaults[cn] = "true" if d[-1] == "True" else "false"
+        f = m(cn, "_elicit_impl"); _sig(f, ["self", "agent", "alternative"], [], cn + "._elicit_impl"); _shape(f, impl, cn + "._elicit_impl")
+    return "\n".join([
+        "(* GENERATED by harness/translate.py from elicitation_utils.py (elicit_multiple of both base classes, IntegerElicitor, the six answering subclasses), whose statements were matched one by one. Do not edit. *)",
+        "From Coq Require Import ZArith QArith Qround List Bool.", "Import ListNotations.", "From SCK Require Import ElicitM ElicitRun.", "Local Open Scope Z_scope.", "",
+        "(* Elicitor.elicit_multiple: after the two guards (same shape, integer dtypes), the i-th agent is asked about the i-th alternative through self.elicit, in order *)",
+        "Definition gen_elicit_multiple (agents alternatives : list Z) : prog (list Q) := mapP (fun k : key => Ask k (fun v => Ret v)) (combine agents alternatives).", "",
+        "(* IntegerElicitor.elicit: the answer of Elicitor.elicit; a float that is not whole raises ValueError (None), anything else is converted with int(..) *)",
+        "Definition gen_int_answer (v : Q) : option Z := if Qeq_bool v (inject_Z (Qfloor v)) then Some (Qfloor v) else None.",
+        "Definition gen_int_elicit (k : key) : prog (option Z) := Ask k (fun v => Ret (gen_int_answer v)).",
+        "(* IntegerElicitor.elicit_multiple: the same loop through self.elicit; the first ValueError ends the batch (the later questions are not asked) *)",
+        "Fixpoint gen_int_elicit_multiple_keys (ks : list key) : prog (option (list Z)) :=",
+        "  match ks with [] => Ret (Some []) | k :: t => Ask k (fun v => match gen_int_answer v with None => Ret None | Some z => bind (gen_int_elicit_multiple_keys t) (fun r => Ret (option_map (cons z) r)) end) end.",
+        "Definition gen_int_elicit_multiple (agents alternatives : list Z) : prog (option (list Z)) := gen_int_elicit_multiple_keys (combine agents alternatives).", "",
+        "(* the answering subclasses: the index convention their constructors pass on (zero_indexed, or its default) and the value they return for (agent, alternative) *)",
+        "Definition gen_profile_answer (valuation_profile : list (list Q)) (agent alternative : nat) : Q := nth alternative (nth agent valuation_profile []) 0%Q.",
+        "Definition gen_lambda_answer (elicitation_function : Z -> Z -> Q) (agent alternative : Z) : Q := elicitation_function agent alternative."] +
+        ["Definition gen_zero_indexed_%s : bool := %s.%s" % (cn, v, "      (* fixed by the constructor *)" if "ValuationProfile" in cn else "      (* default of the zero_indexed argument *)") for cn, v in defaults.items()] +
+        ["Definition gen_zero_indexed_IntegerElicitor : bool := false.      (* default of the zero_indexed argument *)", ""])
+
+# ---------------------------------------------------------------------------------------------------------------
+# the wrapper classes of profile_utils.py
+WRAP_PROFILE = [("Profile", ["np.ndarray"], False, False), ("StrictProfile", ["Profile"], False, True), ("ProfileWithTies", ["Profile"], False, False), ("CompleteProfile", ["Profile"], True, False),
+                ("IncompleteProfile", ["Profile"], False, False), ("StrictCompleteProfile", ["StrictProfile", "CompleteProfile"], True, True), ("StrictIncompleteProfile", ["StrictProfile", "IncompleteProfile"], False, True),
+                ("CompleteProfileWithTies", ["ProfileWithTies", "CompleteProfile"], True, False), ("IncompleteProfileWithTies", ["ProfileWithTies", "IncompleteProfile"], False, False)]
+WRAP_VAL = [("ValuationProfile", ["np.ndarray"], False), ("CompleteValuationProfile", ["ValuationProfile"], True), ("IncompleteValuationProfile", ["ValuationProfile"], False), ("IntegerValuationProfile", ["CompleteValuationProfile"], False)]
+
+def translate_wrappers(repo):
+    """every wrapper class: bases, the only methods (__init__ raising RuntimeError on the two roots, the static `of`), and `of` = the validator with the flags read
+    off the source, followed by a VIEW of the caller's array (no copy: the wrapper shares the caller's memory)"""
+    src = open(os.path.join(repo, "socialchoicekit", "profile_utils.py")).read()
+    mod = ast.parse(src)
+    classes = [c for c in mod.body if isinstance(c, ast.ClassDef)]
+    names = [c.name for c in classes]
+    want = [w[0] for w in WRAP_PROFILE] + [w[0] for w in WRAP_VAL]
+    if names != want: _fail(mod, "wrapper classes of profile_utils.py: %r expected, got %r" % (want, names))
+    rows = []
+    for c in classes:
+        spec = next(w for w in WRAP_PROFILE + WRAP_VAL if w[0] == c.name)
+        if [U(b) for b in c.bases] != spec[1]: _fail(c, "bases of %s: %r" % (c.name, [U(b) for b in c.bases]))
+        meths = [f for f in c.body if isinstance(f, ast.FunctionDef)]
+        root = spec[1] == ["np.ndarray"]
+        if [f.name for f in meths] != (["__init__", "of"] if root else ["of"]): _fail(c, "methods of %s" % c.name)
+        if any(isinstance(x, (ast.Assign, ast.AnnAssign)) for x in c.body): _fail(c, "class attributes in %s" % c.name)
+        if root:
+            i0 = meths[0]
+            if i0.decorator_list or _structure(_body(i0)) != ["raise RuntimeError(\"Call the 'of' method\")"]: _fail(i0, "%s.__init__ must refuse direct construction" % c.name)
+        of = meths[-1]
+        if [U(d) for d in of.decorator_list] != ["staticmethod"] or [a.arg for a in of.args.args] != ["arr"] or of.args.defaults: _fail(of, "%s.of: @staticmethod of(arr) expected" % c.name)
+        st = _structure(_body(of))
+        if c.name in [w[0] for w in WRAP_PROFILE]:
+            g = re.fullmatch(r"check_profile\(arr, is_complete=(True|False), is_strict=(True|False)\)", st[0]) if len(st) == 2 else None
+            if not g or st[1] != "return arr.view(%s)" % c.name: _fail(of, "%s.of: check_profile(arr, ..) then arr.view(%s) expected, got %r" % (c.name, c.name, st))
+            rows.append((c.name, "P", g.group(1) == "True", g.group(2) == "True", False))
+        else:
+            intg = c.name == "IntegerValuationProfile"
+            wantn = 4 if intg else 2
+            g = re.fullmatch(r"check_valuation_profile\(arr, is_complete=(True|False)\)", st[0]) if len(st) == wantn else None
+            ok = g and st[-1] == "return arr.view(%s)" % c.name and (not intg or st[1:3] == ["if not np.issubdtype(arr.dtype, np.integer):", "  raise ValueError('The input array must have integer values')"])
+            if not ok: _fail(of, "%s.of shape: %r" % (c.name, st))
+            rows.append((c.name, "V", g.group(1) == "True", False, intg))
+    b = lambda x: "true" if x else "false"
+    out = ["(* GENERATED by harness/translate.py from the wrapper classes of profile_utils.py (13 classes; every `of` is a validator call followed by arr.view(cls): the wrapper SHARES the caller's memory). Do not edit. *)",
+           "From Coq Require Import List Bool String.", "Import ListNotations.", "Local Open Scope string_scope.", "",
+           "(* (class, is_complete, is_strict) handed to check_profile by <class>.of *)",
+           "Definition gen_profile_wrappers : list (string * (bool * bool)) :=", "  [" + "; ".join('("%s", (%s, %s))' % (n, b(c_), b(s_)) for n, k, c_, s_, _ in rows if k == "P") + "].",
+           "(* (class, is_complete, integer dtype required) for the valuation wrappers *)",
+           "Definition gen_valuation_wrappers : list (string * (bool * bool)) :=", "  [" + "; ".join('("%s", (%s, %s))' % (n, b(c_), b(i_)) for n, k, c_, s_, i_ in rows if k == "V") + "].", ""]
+    return "\n".join(out)
+
+# ---------------------------------------------------------------------------------------------------------------
+# flow.flow_across_network, flow.capacity_across_cut
+FAN = """ans = 0
+for i, j), f in flow.items():      
+  if i == s:
+    ans += f
+  if j == s:
+    raise ValueError('The source vertex should not have any incoming flow.')
+return ans"""
+CAC = """ans = 0
+for i in G.keys():
+  for j, c in G[i]:
+    if i in cut and j not in cut:
+      ans += c
+    if j in cut and i not in cut:
+      ans -= c
+return ans"""
+
+def translate_flowhelpers(repo):
+    src = open(os.path.join(repo, "socialchoicekit", "flow.py")).read()
+    mod = ast.parse(src)
+    for name, args, shape in (("flow_across_network", ["flow", "s"], FAN), ("capacity_across_cut", ["G", "cut"], CAC)):
+        f = _find(mod.body, ast.FunctionDef, name)
+        if [a.arg for a in f.args.args] != args or f.args.defaults or f.args.vararg or f.args.kwarg or f.args.kwonlyargs: _fail(f, "%s%r expected" % (name, tuple(args)))
+        got = _structure(_body(f)); want = [w.rstrip() for w in shape.split("\n")]      # (the listing strips the outer parentheses of a loop target: ((i, j), f) reads "i, j), f")
+        for k in range(max(len(got), len(want))):
+            g_ = got[k] if k < len(got) else "<end>"; w_ = want[k] if k < len(want) else "<end>"
+            if g_ != w_: _fail(f, "%s, statement %d: %r expected, got %r" % (name, k + 1, w_.strip(), g_.strip()))
+    return "\n".join(["(* GENERATED by harness/translate.py from flow_across_network and capacity_across_cut (flow.py), whose statements were matched one by one. Do not edit. *)",
+        "From Coq Require Import ZArith List Bool.", "Import ListNotations.", "From SCK Require Import FlowModel.", "Local Open Scope Z_scope.", "",
+        "(* flow: the dictionary {(i, j): f} as a list of entries; None = ValueError (an entry into the source) *)",
+        "Definition gen_flow_across_network (flow : list ((Z * Z) * Z)) (s : Z) : option Z :=",
+        "  fold_left (fun ans e => match ans with None => None | Some a => let '((i, j), f) := e in let a := if i =? s then a + f else a in if j =? s then None else Some a end) flow (Some 0).", "",
+        "(* capacity leaving the cut minus capacity entering it; G[i] for i in G.keys() never raises *)",
+        "Definition gen_capacity_across_cut (G : graph) (cut : list Z) : Z :=",
+        "  fold_left (fun ans ia => fold_left (fun ans jc => let ans := if memZ (fst ia) cut && negb (memZ (fst jc) cut) then ans + snd jc else ans in",
+        "                                                    if memZ (fst jc) cut && negb (memZ (fst ia) cut) then ans - snd jc else ans) (snd ia) ans) G 0.", ""])
